@@ -90,9 +90,12 @@ def check(ctx):
     )
     # ---- C14-b structure of each permeability
     rets = returns(paths)
-    if len(rets) != 1:
-        raise AnalysisError(f"{q}: expected one returning path, found {len(rets)}")
-    p = rets[0]
+    distinct = {}
+    for rp in rets:
+        distinct.setdefault(nf.key(it.to_nf(rp.value)), rp)
+    if len(distinct) != 1:
+        raise AnalysisError(f"{q}: the returning partitions produce {len(distinct)} different results (expected one)")
+    p = next(iter(distinct.values()))
     val = it.to_nf(p.value)
     den = nf.sub(nf.sub(nf.sub(nf.ONE, P_("S_or")), P_("S_wc")), P_("S_gc"))
     found_phase = set()
